@@ -186,6 +186,27 @@ func child(args []string) {
 		for _, s := range out.MapSites {
 			out.MapNames = append(out.MapNames, siteName(s))
 		}
+	case "race": // child race i,j[,k] rounds : free-running goroutines under the race detector (auxiliary)
+		var idx []int
+		for _, is := range strings.Split(args[1], ",") {
+			i, _ := strconv.Atoi(is)
+			idx = append(idx, i)
+		}
+		rounds, _ := strconv.Atoi(args[2])
+		verifrt.TrackSites = false // the bookkeeping map of the seam is not synchronized
+		for r := 0; r < rounds; r++ {
+			done := make(chan struct{}, len(idx))
+			for _, i := range idx {
+				i := i
+				go func() {
+					guard(func() string { return ops[i].run(dir) })
+					done <- struct{}{}
+				}()
+			}
+			for range idx {
+				<-done
+			}
+		}
 	case "sched": // child sched i,j[,k] bound
 		var idx []int
 		for _, is := range strings.Split(args[1], ",") {
@@ -628,6 +649,55 @@ func run(e *harness.Env) {
 		}
 		e.Pass(desc, true, fmt.Sprintf("sched:threads=%d:yield-sites=%d:schedules>=%d", len(sc), len(s.YieldSites), pow10(s.Schedules)))
 	}
+
+	// ---- auxiliary free-running pass under the race detector (thorough tier; a reported data race is a
+	// definite defect, absence of a report proves nothing - the deciding sub-check is sched) ----
+	raceBin := exePath() + ".race"
+	if _, err := os.Stat(raceBin); err != nil || (!e.Thorough() && os.Getenv("VERIF_C03_RACE") == "") {
+		e.Note("aux_race", "not run (thorough tier only; needs a cgo toolchain)")
+		return
+	}
+	e.Note("aux_race", "run: every scheduling scenario, 30 free-running rounds under -race")
+	for _, sc := range scenarios {
+		desc := harness.D("sub", "race", "threads", len(sc), "ops", strings.Join(sc, "|"))
+		if !e.Own(desc) {
+			continue
+		}
+		e.Begin(desc)
+		var idx []int
+		for _, n := range sc {
+			idx = append(idx, find(n))
+		}
+		detected, report := false, ""
+		for attempt := 0; attempt < 3 && !detected; attempt++ {
+			cmd := exec.Command(raceBin, "child", "race", joinInts(idx), "30")
+			cmd.Env = append(os.Environ(), "VERIF_C03_DIR="+dir, "GORACE=halt_on_error=1 exitcode=66", "GOMAXPROCS=4")
+			out, err := cmd.CombinedOutput()
+			if ee, ok := err.(*exec.ExitError); ok && ee.ExitCode() == 66 {
+				detected, report = true, raceSummary(string(out))
+			}
+		}
+		if detected {
+			e.Fail(desc, "data-race", report, nil)
+			continue
+		}
+		e.Pass(desc, true, "race:clean")
+	}
+}
+
+// raceSummary keeps the function names of the two conflicting accesses (addresses and goroutine ids vary).
+func raceSummary(out string) string {
+	var keep []string
+	for _, l := range strings.Split(out, "\n") {
+		t := strings.TrimSpace(l)
+		if strings.HasPrefix(t, "WARNING: DATA RACE") || strings.HasPrefix(t, "Write at") || strings.HasPrefix(t, "Read at") || strings.HasPrefix(t, "Previous") || strings.HasPrefix(t, "github.com/tsawler/tabula") {
+			keep = append(keep, t)
+			if len(keep) > 12 {
+				break
+			}
+		}
+	}
+	return strings.Join(keep, "\n")
 }
 
 func pow10(n int) int {
